@@ -660,6 +660,10 @@ impl Check for C16 {
         )
     }
 
+    fn watchdog_secs(&self) -> u64 {
+        300 // (statistical experiments / child processes / real thread pools: single runs take seconds)
+    }
+
     fn runs(&self, tier: Tier) -> u64 {
         match tier {
             Tier::Quick => 40_000,
